@@ -55,3 +55,21 @@ pub fn match_header_value_vectored(bytes: &mut Bytes) {
         }
     }
 }
+
+#[cfg(httparse_verif)]
+#[allow(missing_docs)]
+pub fn _verif_set_runtime_feature(feature: u8) {
+    RUNTIME_FEATURE.store(feature, Ordering::Relaxed);
+}
+
+#[cfg(httparse_verif)]
+#[allow(missing_docs)]
+pub fn _verif_runtime_feature_cell() -> u8 {
+    RUNTIME_FEATURE.load(Ordering::Relaxed)
+}
+
+#[cfg(httparse_verif)]
+#[allow(missing_docs)]
+pub fn _verif_detect_runtime_feature() -> u8 {
+    detect_runtime_feature()
+}
